@@ -714,7 +714,10 @@ def mpi_atan2(y, x, prec):
     if ya == yb == fzero:
         if mpf_ge(xa, fzero):
             return mpi_zero
-        return mpi_pi(prec)
+        if mpf_lt(xb, fzero):
+            return mpi_pi(prec)
+        # x straddles zero: the argument is pi for x < 0 and 0 for x >= 0
+        return fzero, mpf_pi(prec, round_ceiling)
     # Right half-plane
     if mpf_ge(xa, fzero):
         if mpf_ge(ya, fzero):
@@ -734,6 +737,11 @@ def mpi_atan2(y, x, prec):
             a = mpf_atan2(ya, xb, prec, round_floor)
     # Lower half-plane
     elif mpf_le(yb, fzero):
+        if yb == fzero:
+            # Touching the negative real axis, where the argument is +pi,
+            # while it is negative just below: only [-pi, pi] contains both
+            b = mpf_pi(prec, round_ceiling)
+            return mpf_neg(b), b
         a = mpf_atan2(yb, xa, prec, round_floor)
         if mpf_le(xb, fzero):
             b = mpf_atan2(ya, xb, prec, round_ceiling)
